@@ -312,3 +312,20 @@ Proof. exact angle_text_roundtrip. Qed.
 Theorem c05_dy_of_show : forall x : b64, is_finite x = true ->
   show x = ((if dneg (dy_of x) then 1 else 0)%Z, Z.of_N (dm (dy_of x)), de (dy_of x)).
 Proof. exact dy_of_show. Qed.
+
+(** THE WHOLE VECTOR: Vec.from_str / FrozenVec.from_str applied to the text of a vector with finite components (the
+    carved-out "-0" included), any bracket style: three decimal fields, and the double float() returns for each
+    (correctly rounded) is within 5e-7 + ulp/2 of the component that was printed.  The constructor stores float(x)
+    unchanged, so this is the value of the new vector. *)
+Theorem c05_vec_text_roundtrip : forall pc c (x y z : b64) ws1 ob wa s1 s2 wb cb ws2,
+  pcfg_ok pc = true ->
+  all_space ws1 -> all_space wa -> all_space wb -> all_space ws2 ->
+  all_space s1 -> s1 <> [] -> all_space s2 -> s2 <> [] ->
+  opt_bracket (opens pc) ob -> opt_bracket (closes pc) cb ->
+  is_finite x = true -> is_finite y = true -> is_finite z = true ->
+  exists d1 d2 d3,
+    parse_vec pc (ws1 ++ ob ++ wa ++ format6 c (dy_of x) ++ s1 ++ format6 c (dy_of y) ++ s2 ++ format6 c (dy_of z) ++ wb ++ cb ++ ws2)
+      = PFields (Some d1) (Some d2) (Some d3) /\
+    forall d v, In (d, v) [(d1, x); (d2, y); (d3, z)] ->
+      (Rabs (py_float d - B2R v) <= 5 / 10000000 + / 2 * ulp radix2 (FLT_exp (-1074) 53) (dec_R d))%R.
+Proof. exact vec_text_roundtrip. Qed.
